@@ -63,7 +63,7 @@ def plan(tier, seed):
 
 def mandatory(tier):
     out = [f"class/{n}" for n in X.ALL] + [f"kind/{k}" for k in X.KINDS] + ["groups/1", "groups/N"]
-    out += ["fresh_identity", "non_identity", "forward/grid_flag/finer_grid/nonzero_boundary", "disp/own", "disp/resized", "disp/other_domain", "points/world", "pointset_transformer", "sequential", "multilevel", "generic", "image/equal", "image/same_domain", "image/other_domain", "image/other_domain_default_source", "after_data_", "matrix"]
+    out += ["fresh_identity", "non_identity", "forward/grid_flag/finer_grid/nonzero_boundary", "disp/own", "disp/own_other_flag", "disp/resized", "disp/other_domain", "transform_grid/fractional_internal_size", "image/padding=constant", "points/world", "pointset_transformer", "sequential", "multilevel", "generic", "image/equal", "image/same_domain", "image/other_domain", "image/other_domain_default_source", "after_data_", "matrix"]
     return out
 
 
@@ -117,6 +117,15 @@ def case(ctx, i):
     G = 1 if (i // 48) % 2 == 0 else 2
     need_ac = name in ("FreeFormDeformation", "StationaryVelocityFreeFormDeformation")
     gp, g = rand_grid(rng, D, ac=True if need_ac else None)
+    if i % 4 == 1:
+        # the transform lives on a derived grid (pyramid level): odd sizes leave a fractional internal size (13 -> 6.5,
+        # reported 7), and every map of the transform has to use the reported one
+        gp = gen.rand_grid_params(rng, D, max_size=36 if D == 2 else 18, min_size=12, big_offset=False, align_corners=True if need_ac else None)
+        g = gen.make_grid(gp).downsample(1)
+        gp = dict(gp, derived="downsample", size=[int(k) for k in g.size()])
+        ctx.bucket("transform_grid/derived")
+        if bool((g._size != g._size.round()).any()):
+            ctx.bucket("transform_grid/fractional_internal_size")
     gref = gen.ref_of_grid(g)
     ax_t = cube_axes(g)
     ctx.bucket(f"class/{name}")
@@ -209,6 +218,15 @@ def case(ctx, i):
         g2 = g.resize(tuple(size2))
         u2, _ = grid_map(g2)
         ctx.close("disp_resized_grid_equals_point_map", t.disp(g2).detach(), u2, TOL, key=f"disp/resized/{'linear' if t.linear else 'nonrigid'}", size=size2, **info)
+    # ---------------- disp() on the own grid carrying the other flag: same samples, other vector normalisation
+    with ctx.guard("disp(own grid, other flag)", **info):
+        ctx.bucket("disp/own_other_flag")
+        gof = g.align_corners(not g.align_corners())
+        uof, _ = grid_map(gof)
+        dof = t.disp(gof).detach()
+        ctx.close("disp_own_grid_other_flag_equals_point_map", dof, uof, TOL, key=f"disp/own_other_flag/{'linear' if t.linear else 'nonrigid'}", **info)
+        fof = t.flow(gof)
+        ctx.true("flow_own_grid_other_flag_meta", fof.grid() == gof and fof.grid().align_corners() == gof.align_corners() and fof.axes() is Axes.from_grid(gof), key="flow/meta", **info)
     # ---------------- disp() on a grid with another domain
     with ctx.guard("disp(other_domain)", **info):
         ctx.bucket("disp/other_domain")
@@ -337,11 +355,18 @@ def case(ctx, i):
             sref, tref = gen.ref_of_grid(source), gen.ref_of_grid(target)
             ramp = Ramp.random(rng, 2, sref)
             data = torch.tensor(ramp.on_grid(sref)[None], dtype=torch.float32).expand(G, -1, *source.shape).contiguous()
+            pad = "zeros" if rng.integers(0, 2) else float(rng.choice([0.75, -2.0]))  # constant padding value: outside the compared region
             if rel == "other_domain_default_source":
-                warp = S.ImageTransformer(t, target=target, padding="zeros")
+                warp = S.ImageTransformer(t, target=target, padding=pad)
             else:
-                warp = S.ImageTransformer(t, target=target, source=source, padding="zeros")
+                warp = S.ImageTransformer(t, target=target, source=source, padding=pad)
+            data0 = data.clone()
             out = warp(data)
+            # the transformer is a reusable module: the same input gives the same output again, and the input is intact
+            out_again = warp(data)
+            ctx.true("image_transformer_leaves_input_unchanged", bool(torch.equal(data, data0)), key=f"image/input_mutated", relation=rel, padding=str(pad), **info)
+            ctx.close("image_transformer_second_call_equals_first", out_again.detach(), out.detach(), 0.0, key=f"image/second_call", relation=rel, padding=str(pad), **info)
+            ctx.bucket("image/padding=" + ("zeros" if pad == "zeros" else "constant"))
             ok = ctx.true("warped_shape", tuple(out.shape) == (G, 2) + tuple(target.shape), key="image/shape", got=list(out.shape), relation=rel, **info)
             if not ok:
                 continue
